@@ -146,7 +146,7 @@ func buildC02(c *CheckCtx) {
 	kinds := astKinds(c.W)
 	c.checkPrinter(kinds) // P-order: the layout the conservation obligations use is what every path of the printer emits
 	c.addFunctionUnits(func(con *Contract) bool { return hasProp(con, "C02") })
-	c.Explain = "Proved per run: (G-conserve) every action of both grammars leaves in $$ a value whose printed token sequence equals the concatenation of the token sequences of $1..$n, for every shape the non-terminal contracts allow; (P-order) every printer method emits each slot once in the order the conservation obligations use, helpers pinned; (R-end) rule 1 stores the end token. Not covered by this check: L-tile (the lexer's tokens tile the source: C04), the LR driver (trusted), and the precondition of printer.write at printToken's call sites (no '<?php ' / space insertion), which is a fact about adjacent token pairs."
+	c.Explain = "Proved per run: (G-conserve) every action of both grammars leaves in $$ a value whose printed token sequence equals the concatenation of the token sequences of $1..$n, for every shape the non-terminal contracts allow; (P-order) every printer method emits each slot once in the order the conservation obligations use, helpers pinned; (R-end) rule 1 stores the end token. Not covered by this check: gap-freedom of L-tile (C04's bounded stand-in), the LR driver's shift/reduce decisions (its code is verified under C01/C06 by E-DRV; that a stack slot holds a value of its state's symbol is backed by the table lemma symbols-on-stack), and the precondition of printer.write at printToken's call sites (no '<?php ' / space insertion), which is a fact about adjacent token pairs."
 	c.checkListLaws()
 	c.assume("W-exact: printer.write appends exactly its argument unless (state is HTML and the chunk is not an open tag) or (last byte and first byte are both identifier bytes); that no two adjacent printed tokens of a parsed tree trigger these is NOT proved (two known counter-examples: a shebang line, '1and')")
 }
